@@ -3,9 +3,14 @@
 package postprocessor
 
 import (
+	"bytes"
+	"net/http"
+
+	"github.com/gabriel-vasile/mimetype"
 	"github.com/internetarchive/Zeno/internal/pkg/config"
 	"github.com/internetarchive/Zeno/internal/pkg/controler/pause"
 	"github.com/internetarchive/Zeno/internal/pkg/stats"
+	"github.com/internetarchive/Zeno/internal/verifmodel"
 	"github.com/internetarchive/Zeno/internal/verifrt"
 	"github.com/internetarchive/Zeno/pkg/models"
 )
@@ -22,13 +27,34 @@ func VerifH_C03_postprocessor_stop() {
 	err := Start(in, out)
 	verifrt.Assert(err == nil, "C03 stage starts")
 	verifrt.Quiesce()
-	if verifrt.Choice("seed", 2) == 1 {
+	switch verifrt.Choice("seed", 3) {
+	case 1:
 		s := models.NewItem("seed-1", &models.URL{Raw: "http://x.example/"}, "")
 		s.SetStatus(models.ItemCompleted) // passes through without payload work
 		in <- s
 		verifrt.Settle() // native replay: let the worker take the seed and reach the hand-off
 		stuck = outCap == 0
 		verifrt.Cover("seed-in-flight")
+	case 2:
+		// an archived page with two anchors and hops left: the worker hands two outlinks and then the seed downstream
+		config.Get().MaxHops = 1
+		s := models.NewItem("seed-1", c06URL("http://site.example/p0"), "")
+		outs := []string{"http://other.example/o0", "http://other.example/o1"}
+		text := "<html><body><a href=\"" + outs[0] + "\">l</a><a href=\"" + outs[1] + "\">l</a></body></html>"
+		ctype := "application/xhtml+xml; charset=utf-8"
+		s.GetURL().SetResponse(&http.Response{StatusCode: 200, Header: http.Header{"Content-Type": []string{ctype}}})
+		s.GetURL().SetBody(&c06Body{Reader: bytes.NewReader([]byte(text))})
+		if !verifrt.Symbolic() {
+			s.GetURL().SetMIMEType(mimetype.Detect([]byte(text)))
+		}
+		s.SetStatus(models.ItemArchived)
+		verifmodel.DocKind, verifmodel.DocAssets, verifmodel.DocOutlinks, verifmodel.DocErr = "html", nil, outs, false
+		verifmodel.MIME = ctype
+		verifmodel.HeaderLinks = nil
+		in <- s
+		verifrt.Settle()
+		stuck = true // three hand-offs into a channel of capacity <= 1 that nobody reads
+		verifrt.Cover("outlinks-in-flight")
 	}
 	switch verifrt.Choice("pause", 3) {
 	case 1:
